@@ -268,6 +268,15 @@ func (c *Ctx) mcChunk(cfg *MCConfig, gs []*gast.Grammar, base int, rng *rand.Ran
 		if cfg.Sig != nil {
 			v.Sig = cfg.Sig(cs.u.G, cs.in, m, d.field)
 		}
+		if cs.os.Memo && !cfg.LR {
+			// known finding F20: Memoize caches a code predicate's verdict per (predicate, offset)
+			// although it may depend on label values; the observation equals the model variant that does the same
+			mb := ref.Run(cs.u.G, cs.in, ref.Opts{Entry: cs.entry, File: cs.os.File, AllowInvalid: cs.os.AllowInvalid, NoRecover: cs.os.NoRecover,
+				MaxExpr: cs.os.MaxExpr, MaxEvents: 4000, StepCap: 400000, MemoPreds: true, Init: cs.os.Init})
+			if !mb.Capped && len(compareModel(cfg.Compare, cs, r, mb)) == 0 {
+				v.Sig = append(v.Sig, "F20-memo-predicate-labels")
+			}
+		}
 		if cfg.LR && !cs.os.Memo {
 			// known finding F06 (leader-memo variant): the observation equals, field by field, what
 			// the model predicts when a finished left-recursive result stays cached for its offset
